@@ -37,6 +37,7 @@ class Report:
         self.known = load_known(pid)
         self.explanation = ""
         self.undecided = []
+        self.deferred = []
 
     # -- declaration ------------------------------------------------------
     def rule(self, rid, text, min_instances=1):
@@ -81,9 +82,16 @@ class Report:
     def broken(self, msg):
         raise AnalysisBroken("%s: %s" % (self.pid, msg))
 
+    def soft_broken(self, msg):
+        """a rule could not be decided; the other rules still run. Reported as inconclusive (exit 2)
+        unless another rule found a definite violation."""
+        self.deferred.append("%s: %s" % (self.pid, msg))
+
     # -- finish -------------------------------------------------------------
     def finish(self, broken=None):
         wall = time.time() - self.t0
+        if broken is None and not self.violations and self.deferred:
+            broken = "; ".join(self.deferred)
         if broken is None and not self.violations:
             for rid, r in self.rules.items():
                 if r["obligations"] < r["min"]:
